@@ -12,7 +12,7 @@ THEOREMS = ['C07.C07_wf', 'C07.step_wf', 'C07.create_wf', 'C07.init_wf', 'C07.fi
 LEVEL = 'proof'
 LEVEL_TEXT = 'Theorem C07_wf: every state reachable from a fresh tree is well formed — level = id length, ids pairwise distinct (fresh-id argument: suffix = current size of the target level), levels registration has one entry per configured level, nothing below the last level, start metaepochs not in the future, every non-root deme records the deme one level up with id = own id minus the last component as its parent and that deme exists and did not start later, the root has no parent; lookup by id is unambiguous. Inductive (step_wf) for every configuration and event sequence. Tie: trace refinement (ids, levels, parents, children, start metaepochs, seeds, class names in every dump) + structural monitor + seed provenance monitor. NEW: C07_children — in every reachable state every non-root deme is listed exactly once among the children of the deme one level above whose id is its own id without the last component, every entry of a children list is the id of an existing deme of that shape, no children list has repetitions (inductive ChildOk); C07_seed_in_initial_population — every SEA / DE / SHADE deme sprouted from a seed has an individual with exactly the seed genome in its initial population. NEW: C07_parents_ran / C07_ancestors_ran — in every reachable state a deme that lists a child (hence every proper ancestor of every deme) has run at least one metaepoch, and when a sprouting round begins every deme of the tree has (inductive RanInv: ran, or still scheduled in the metaepoch in progress, or created by the last round and waiting awake for the next one).'
 LEVEL_NOTE = 'Trusted: Lean kernel + standard axioms; the hand-written tree model is tied to the code by trace refinement on sampled runs; numerical engines, objective values and user-defined stop-condition verdicts are environment; monitors trusted as failing-input search. Ids are modelled as paths of per-level creation indices (root = empty path); their rendering as strings (root, 3/4) is part of the dump compared with the real ids. Seed provenance (seed is an individual of the parent population at sprouting time; population children contain it) is enforced by the model per event (initPopOk, generators) and checked by refinement and the monitor rather than stated as a separate theorem; the children-list half of the parent link is checked by refinement.'
-TECHNIQUE = "trace refinement against the Lean tree model (Tree.step re-executes real runs) + direct monitors"
+TECHNIQUE = "Lean 4 theorems (inductive invariants of the tree machine Tree.step, proved for all configurations and event sequences) tied to the code by trace refinement (Tree.step re-executes real runs; engine generations replayed bit-exactly by the engine model) + direct monitors as failing-input search"
 RULE = "case = one traced run of a random configuration (1-3 levels, engine per level from the full list, every shipped GSC/LSC kind plus user-defined ones, both stock sprout mechanisms and user-composed chains, hibernation on/off, both directions, decimal boxes, optional cutoff/precision/stats wrappers, shared or per-level problems); non-trivial = run with >= 2 demes and >= 2 metaepochs; distinct by configuration hash"
 ASSUMPTIONS = ["objective is deterministic and never returns NaN", "runs are capped at 12 metaepochs by a user-level composite stop condition"]
 FORCE = None
